@@ -350,7 +350,7 @@ fn main() {
     h.rule("closed universe {Srgb, Hsl, Hwb, Lab, Oklch}<f32> (all layout compatible, 25 ordered pairs, 125 monomorphic guard transitions driven by data): generated programs = original type + buffer of 0..24 colours (nominal box, some out of range) + first conversion (clamped or unclamped) + up to 8 operations from {read, write through the guard, then_into_color_mut, then_into_color_unclamped_mut, into_unclamped_guard/into_clamped_guard} + terminal restore / drop / mem::forget; plus owned containers: Vec chains of 0..4 links with capacity != length (incl. empty Vec with capacity), Box<[T]>, single values, map_vec_in_place / map_slice_box_in_place. Oracle: plain Vec + ordinary from_color / from_color_unclamped: after every step the guard views the original memory (address, length) and holds bitwise the out-of-place values; after restore/drop the buffer holds the one-step conversion of the current contents back to the original type, after forget the converted values; Vec/Box keep address, length, capacity. Non-trivial = buffer length >= 2 and (chain depth >= 2 or a write through the guard or terminal in {restore, forget}).");
     h.assume("reference model = out-of-place conversion of the same values (bitwise equality: same function, same inputs); memory errors invisible to values are left to the Miri stage of the thorough tier");
     let miri = std::env::var("PV_MIRI").is_ok();
-    let n = if miri { 80 } else { h.n(2_000_000, 30_000_000) };
+    let n = if miri { 50 } else { h.n(2_000_000, 30_000_000) };
     h.prop(
         "guard_programs",
         n,
@@ -372,7 +372,7 @@ fn main() {
         },
         run_program,
     );
-    let n = if miri { 60 } else { h.n(1_500_000, 20_000_000) };
+    let n = if miri { 30 } else { h.n(1_500_000, 20_000_000) };
     h.prop(
         "owned_containers",
         n,
